@@ -35,6 +35,7 @@ type Options struct {
 	SimpleIDs        bool                                         // plain ascii ids
 	HomogeneousTime  bool                                         // all processes share ExpireKeyAfter / RevokeCheckInterval / CreateDatePrecision
 	NoRetainAEAD     bool
+	PayloadGen       func(t *rapid.T) []byte // overrides the payload generator
 }
 
 // Proc is one "process": a SessionFactory with its own policy and caches.
@@ -355,11 +356,11 @@ func (w *World) end(ev *Event) {
 
 // ---- session handling -------------------------------------------------------------
 
-func (w *World) pickProc(label string) *Proc {
+func (w *World) PickProc(label string) *Proc {
 	return w.Procs[rapid.IntRange(0, len(w.Procs)-1).Draw(w.T, label)]
 }
 
-func (w *World) pickPart(label string) string {
+func (w *World) PickPart(label string) string {
 	return w.Parts[rapid.IntRange(0, len(w.Parts)-1).Draw(w.T, label)]
 }
 
@@ -405,7 +406,7 @@ func (w *World) CloseSess(s *Sess) {
 
 // sessionFor returns a held session of p for part (drawn among the open ones)
 // or opens a fresh one. fresh reports whether it was opened now.
-func (w *World) sessionFor(p *Proc, part string, preferHeld bool) (*Sess, bool) {
+func (w *World) SessionFor(p *Proc, part string, preferHeld bool) (*Sess, bool) {
 	var held []*Sess
 	for _, s := range p.Sessions {
 		if s.Partition == part && !s.Closed {
@@ -421,6 +422,9 @@ func (w *World) sessionFor(p *Proc, part string, preferHeld bool) (*Sess, bool) 
 // ---- payloads -----------------------------------------------------------------------
 
 func (w *World) drawPayload() []byte {
+	if w.Opt.PayloadGen != nil {
+		return w.Opt.PayloadGen(w.T)
+	}
 	if w.Opt.SmallPayloads {
 		return rapid.SliceOfN(rapid.Byte(), 0, 48).Draw(w.T, "payload")
 	}
